@@ -105,16 +105,17 @@ Definition ex_blocks : list block :=
   [ mkB 3 [(2, mkA stOnline 2500006 3); (0, mkA stNotPart 4999982 0)];
     mkB 3 [(3, acct0); (1, mkA stOnline 4000012 3)];
     mkB 7 [(2, mkA stNotPart 2500014 7); (0, mkA stNotPart 4999958 0)] ].
+Definition ex_final : totals := mkT (mkAC 4000028 4) (mkAC 0 0) (mkAC 7499972 6) 7.
+Definition ex_sched : list top :=
+  [TNewBlock (nth 0 ex_blocks (mkB 0 [])); TNewBlock (nth 1 ex_blocks (mkB 0 []));
+   TCommit 1; TReload; TNewBlock (nth 2 ex_blocks (mkB 0 [])); TCommit 1].
 Example C12_nonvacuous :
   mods_ok ex_genesis = true /\ forallb block_ok ex_blocks = true /\
-  (exists tr, ledger_run 1000000 ex_genesis ex_blocks = Some tr /\
-     option_map snd (nth_error tr 3) =
-       Some (mkT (mkAC 4000028 4) (mkAC 0 0) (mkAC 7499972 6) 7)) /\
-  (exists s0 s, tracker_init 1000000 ex_genesis = Some s0 /\
-     trun 1000000 s0 [TNewBlock (nth 0 ex_blocks (mkB 0 [])); TNewBlock (nth 1 ex_blocks (mkB 0 []));
-                      TCommit 1; TReload; TNewBlock (nth 2 ex_blocks (mkB 0 [])); TCommit 1] = Some s /\
-     serve s 1 = None /\
-     serve s 3 = Some (mkT (mkAC 4000028 4) (mkAC 0 0) (mkAC 7499972 6) 7)).
-Proof.
-  vm_compute. repeat split; try reflexivity; eexists; try eexists; repeat split; reflexivity.
-Qed.
+  blocks_of ex_sched = ex_blocks /\
+  option_map (fun tr => option_map snd (nth_error tr 3)) (ledger_run 1000000 ex_genesis ex_blocks)
+    = Some (Some ex_final) /\
+  match tracker_init 1000000 ex_genesis with
+  | Some s0 => option_map (fun s => (tr_dbround s, serve s 1, serve s 3)) (trun 1000000 s0 ex_sched)
+  | None => None
+  end = Some (2, None, Some ex_final).
+Proof. vm_compute. repeat split. Qed.
